@@ -386,6 +386,12 @@ func (jp *jobProvider) refreshFile(stat os.FileInfo, filename string, symlink st
 		return
 	}
 
+	// the name can be re-pointed between the stat that came with the notification and the open (rotation by
+	// rename followed by a new file under the old name): the job must describe the file that was actually opened
+	if fstat, err := file.Stat(); err == nil {
+		stat = fstat
+	}
+
 	jp.addJob(file, stat, filename, symlink)
 }
 
